@@ -69,9 +69,11 @@ def newtonDown (x n : Nat) : Nat → Nat → Nat → Nat × Nat
   | fuel + 1, guess, fix =>
     if fix < guess then newtonDown x n fuel fix (newtonNext x n fix) else (guess, fix)
 
-/-- the Newton part of `nth_root` (n ≥ 3, `bits > n`): start from `2^(bits/n)`, go up, then down -/
+/-- the Newton part of `nth_root` (n ≥ 3, `bits > n`): start from the overestimate `2^⌈bits/n⌉`
+    (since /repo 440594f; before: `2^⌊bits/n⌋`, from which the first step overshoots by up to `2^n/n`
+    and the descent needs `O(n²)` steps), go up (never taken from an overestimate), then down -/
 def nthRootNewton (x n : Nat) (fuel : Nat) : Nat :=
-  let guess := 2 ^ (bitLen x / n)
+  let guess := 2 ^ ((bitLen x + n - 1) / n)
   let fix := newtonNext x n guess
   let (guess, fix) := newtonUp x n fuel guess fix
   (newtonDown x n fuel guess fix).1
